@@ -76,6 +76,10 @@ def fn_code_hash(fn: Callable, salt: str = None, environment: bytes = None) -> s
                 sha256.update(salt.encode("utf-8"))
             sha256.update(json.dumps(attr_values, sort_keys=True).encode("utf-8"))
             return sha256.hexdigest()[0:16]
+        elif isinstance(o, frozenset):
+            # A set literal used as a constant (e.g. `x in {"a", "b"}`). Its iteration order,
+            # and therefore its repr, changes with hash randomisation: use a canonical order.
+            return "frozenset({" + ", ".join(sorted(repr(x) for x in o)) + "})"
         else:
             return repr(o)
 
